@@ -244,7 +244,9 @@ def cache_arg(rng, unhashable=False):
     if r < 0.12:
         return '~none'           # makes the generated function return None (see `body`)
     if r < 0.5:
-        return scalar(rng)
+        # -1 / -2 and 0 / 2**61-1 have the same python hash: distinct combinations whatever the cache keys on (seeded C18-u1: the cache
+        # keyed by hash(key))
+        return scalar(rng) if rng.random() < 0.75 else rng.choice([-1, -2, -1, -2, 0, 2 ** 61 - 1])
     if r < 0.64:
         return [scalar(rng) for _ in range(rng.choice([0, 1, 2]))]
     if r < 0.72:
